@@ -77,6 +77,7 @@ func checkC13(c *Ctx) {
 	c.MustTLC(TLCOpts{Module: "Sinks", Cfg: "Sinks.check", Consts: map[string]string{"MinRule": `"first-nonzero"`, "Procs": "{}"}, ExpectViolation: true})
 	c.MustTLC(TLCOpts{Module: "Sinks", Cfg: "Sinks.check", Consts: map[string]string{"StopOnError": "TRUE", "Procs": "{}"}, ExpectViolation: true})
 	c.MustTLC(TLCOpts{Module: "Sinks", Cfg: "Sinks.check", Consts: map[string]string{"Locked": "FALSE", "MaxSinks": "0"}, ExpectViolation: true})
+	c.MustTLC(TLCOpts{Module: "Sinks", Cfg: "Sinks.check", Consts: map[string]string{"MaxSinks": "0"}}) // lock only, every assignment of two handles to three goroutines
 	c.MustTLC(TLCOpts{Module: "Sinks", Cfg: "Sinks.check", Consts: map[string]string{"Relock": `"fresh"`, "MaxSinks": "0"}, ExpectViolation: true})
 
 	seenMulti := map[string]bool{}
